@@ -315,6 +315,13 @@ func checkC20(r *run, c *CloneCase) (CaseInfo, error) {
 
 func genCloneCase(t *rapid.T) *CloneCase {
 	c := &CloneCase{Model: *genPacketModel(t)}
+	// keep the cases small: every observation renders and marshals the whole packet
+	if len(c.Model.Payload) > 300 {
+		c.Model.Payload = c.Model.Payload[:300]
+	}
+	if c.Model.ExtKind == "legacy" && len(c.Model.Exts[0].Val) > 256 {
+		c.Model.Exts[0].Val = c.Model.Exts[0].Val[:256]
+	}
 	c.FromWire = genBool(t, "fromwire")
 	c.NilPayload = genBool(t, "nilpayload")
 	c.Mut = rapid.SampledFrom([]string{"payload", "csrc", "extval", "extval", "setnew", "setreplace", "del", "scalar", "padsize"}).Draw(t, "mut")
